@@ -79,6 +79,16 @@ class Path:
         self.unknown = 0
         self.fresh = 0
         self.notes = []
+        self.subst = []       # (variable, numeral) pairs implied by equality decisions on this path
+
+    def learn(self, c):
+        """record `var == numeral` facts so that later conditions over the same variable fold without a query"""
+        if z3.is_eq(c):
+            a, b = c.arg(0), c.arg(1)
+            if z3.is_const(b) and b.decl().kind() == z3.Z3_OP_UNINTERPRETED and (z3.is_int_value(a) or z3.is_rational_value(a)):
+                a, b = b, a
+            if z3.is_const(a) and a.decl().kind() == z3.Z3_OP_UNINTERPRETED and (z3.is_int_value(b) or z3.is_rational_value(b)):
+                self.subst.append((a, b))
 
     def assume(self, c):
         if isinstance(c, bool):
@@ -177,10 +187,18 @@ class Exec:
         """fork point: returns the boolean outcome followed on this path"""
         if isinstance(c, bool):
             return c
+        if path.subst:
+            c2 = z3.simplify(z3.substitute(c, *path.subst))
+            if z3.is_true(c2):
+                return True
+            if z3.is_false(c2):
+                return False
         if path.pos < len(path.dec):
             d = path.dec[path.pos]
             path.pos += 1
             path.pc.append(c if d else z3.Not(c))
+            if d:
+                path.learn(c)
             return d
         # new decision
         first = None
@@ -215,6 +233,8 @@ class Exec:
         path.alt.append(m_other)
         path.pos += 1
         path.pc.append(c if first else z3.Not(c))
+        if first:
+            path.learn(c)
         return first
 
     # ------------------------------------------------------------ values
@@ -584,6 +604,14 @@ class Exec:
                 self.viol(path, 'invalid-free', True, fn, ins, p.obj.name)
             p.obj.alive = False
             return None
+        if name in ('llabs', 'labs'):
+            v = a[0]
+            if is_concrete_int(v):
+                if v == -2 ** 63:
+                    self.viol(path, 'signed-overflow', True, fn, ins, name)
+                return abs(v)
+            self.viol(path, 'signed-overflow', v == -2 ** 63, fn, ins, name)
+            return z3.If(v >= 0, v, -v)
         if name == 'abs':
             v = a[0]
             if is_concrete_int(v):
